@@ -1,5 +1,5 @@
 (* Python str / bytes as lists of code points (N), with the handful of str methods the
-   models use.  Every function here is tied to CPython by harness/libcorr.py. *)
+   models use.  Each function is exercised against CPython through the correspondence runs of the properties that use it. *)
 From Coq Require Import ZArith NArith List Bool Ascii String Lia.
 Import ListNotations.
 Open Scope N_scope.
